@@ -153,9 +153,24 @@ def json_required(fmt, doc):
     return out
 
 
+_WARM = {}
+
+
+def _warm_up(fmt):
+    """Another reader of the same class loads (and writes) a VALID file of the format first: what it leaves behind in the process
+    (memoised header checks, per-class caches, 'seen this already' marks) must not let the damaged file through."""
+    if fmt not in _WARM:
+        _WARM[fmt] = [b[1]() for name, b in sorted(BASES.items()) if b[0] == fmt][:2]
+    for text in _WARM[fmt]:
+        other = new_obj(fmt)
+        call(other.loads, text)
+        call(TI.dumps, other) if fmt == "treeinfo" else call(other.dumps)
+
+
 def load_outcome(fmt, text, path=None, kind=None):
     """-> {'load': 'rejected:<Exc>' | 'ok', ...}; after a successful load: can it be written, what sits at `path` now?"""
     import io
+    _warm_up(fmt)
     obj = new_obj(fmt)
     r = call(obj.loads, text)
     via = "loads"
